@@ -845,6 +845,7 @@ func gen(g *core.G) {
 	genTParam(g)
 	genInterfaces(g)
 	genIface(g)
+	genGoObj(g)
 	chains, perChain, tuples := 300, 4, 5
 	if g.Thorough() {
 		chains, perChain = 10000, 2
